@@ -4,8 +4,13 @@ from xvlib import log
 from props.common import *
 from props.hmcommon import *
 
+_base_harnesses = harnesses
+def harnesses(tier):
+    return _base_harnesses(tier) + [('hm', ('XV_RECL=GC',), False, '_gc')]
 HARNESSES = harnesses('quick')
-LEVEL = 'exploration'
+THEOREM_NOTES = {
+    'scope': 'the theorems are about the list model of C08 extended with the iterator operations of harris_michael_list_based_set (begin, find-as-iterator, operator++ with its retry loop, operator*, reset, erase(iterator)), one iterator per thread, over a reclaimer that never reuses a referenced node (that is where C01 is used): every node an iterator step touches is allocated and in the chain or retired; every yielded node was linked by a recorded insert and reachable when the iterator moved onto it; yielded keys never decrease and a key is yielded again only through a different node re-inserted between the two yields; a traversal from begin() (find k) that reaches end has yielded every key (> k) that was in the abstract set in every state of the traversal; erase(iterator) marks exactly the node it stands on and returns end / a greater key / a re-inserted equal key; operator++ terminates solo within 4*|chain|+8 steps. Three over-strong formalisations are refuted with schedules replayed on the code (a yielded element may already have been logically erased by a still-running erase; keys are not STRICTLY increasing across a re-insertion; the successor returned by erase may carry an equal re-inserted key): they concern the fixed linearization points of the model, not the black-box property, which only speaks about calls that have returned. harris_michael_hash_map iterators (bucket transitions), iterator copies and the real reclaimers are covered by the search only',
+}
 ASSUMPTIONS = [
     'SC interleavings only; iterator oracles: no access to reclaimed memory (xvrt quarantine), every yielded key was inserted, no key yielded twice in one traversal unless re-inserted, erase(iterator) linearizes as an erase of the referenced key, final traversal duplicate-free',
     'completeness (every element present throughout and ahead is yielded) is checked only in the final quiescent traversal against the linearized history',
@@ -21,6 +26,18 @@ def run(ctx):
     thorough = tier == 'thorough'
     Hs = ctx['H']
     n = 2000 if thorough else 250
+    # ---- tie: the list + iterator model (Model/HmlItDefs.v) reproduces the implementation's traces
+    Hgc = Hs.pop('hm_gc')
+    fixed = [[['ins 10', 'ins 20', 'ins 30', 'itb', 'itn', 'itn', 'itn'], ['del 20', 'ins 25']],
+             [['ins 10', 'ins 30', 'itf 10', 'ite', 'itd', 'itn', 'itr'], ['ins 20', 'del 30', 'ins 30']],
+             [['ins 10', 'itb', 'itd', 'itn'], ['del 10', 'ins 10'], ['ins 5', 'itf 5', 'ite']]]
+    def itprog():
+        t1 = ['ins %d' % k for k in rng.sample([10, 20, 30, 40], 3)] + [rng.choice(['itb', 'itf %d' % rng.choice([10, 20, 30])])] + [rng.choice(['itn', 'itn', 'itd', 'ite']) for _ in range(3)] + ['itr']
+        others = [[('%s %d' % (rng.choice(['ins', 'del', 'del', 'has']), rng.choice([10, 15, 20, 30, 35]))) for _ in range(3)] for _ in range(1 + rng.randint(0, 1))]
+        return [t1] + others
+    cases = [({'c': 'set'}, p) for p in fixed] + [({'c': 'set'}, itprog()) for _ in range(8 if thorough else 4)]
+    st = do_correspondence(ctx, 'hmlit', Hgc, cases, 10 if thorough else 6, 'harris_michael_list_iterators')
+    tie = tie_broken_sig(st, 'hmlit')
     for name, H in sorted(Hs.items()):
         jobs = []
         for cfg in (CONFIGS if thorough else rng.sample(CONFIGS, 4)):
@@ -43,5 +60,19 @@ def run(ctx):
                 jobs.append((cfg, [trav, upd], 'prefix', 80, ctx['seed'], ()))
             jobs.append((cfg, [['ins 10', 'ins 20', 'ins 30', 'ins 41', 'trav'], ['del 20'], ['del 10']], 'dfs', n, ctx['seed'], ('--pb', '2')))
             jobs.append((cfg, [['ins 10', 'ins 20', 'ins 30', 'itb', 'del 10', 'itn', 'itn', 'itn']], 'opseq', 1, ctx['seed'], ()))
+        # an iterator whose neighbourhood is rebuilt under it: the thread inserts right before / erases around the position, erases
+        # through the iterator (fallback find), erases the predecessor and churns (so that scans run), then uses the iterator again,
+        # while another thread erases neighbours: every node the iterator still refers to (prev, cur) must stay protected
+        def neighbourhood():
+            x = rng.choice([30, 40]); y = rng.choice([20, 35, 25]); z = rng.choice([10, 20, 30])
+            t1 = ['ins 10', 'ins 30', 'ins 40', 'itf %d' % x, 'ins %d' % y, rng.choice(['ite', 'itn']), 'del %d' % z, 'ins 50', 'del 50', rng.choice(['ite', 'itn', 'itd']), 'itd']
+            t2 = ['del %d' % rng.choice([y, 10, 30])] + (['del %d' % rng.choice([y, 20, 40])] if rng.random() < 0.5 else [])
+            return [t1, t2]
+        for cfg in ({'c': 'set'}, {'c': 'map', 'buckets': '1', 'memo': '0'}):
+            jobs.append((cfg, [['ins 10', 'ins 30', 'ins 40', 'itf 30', 'ins 20', 'ite', 'del 10', 'ins 50', 'del 50', 'ite', 'itd'], ['del 20']], 'prefix', 400, ctx['seed'], ()))
+            for k in range(6 if thorough else 3):
+                prog = neighbourhood()
+                jobs.append((cfg, prog, 'prefix', 400, ctx['seed'] + k, ()))
+                jobs.append((cfg, prog, 'dfs', n, ctx['seed'] + k, ('--pb', '2')))
         do_search(ctx, H, jobs, name, classify=lambda c, h, f, name=name: {'harness': name})
-    return None
+    return tie
